@@ -31,13 +31,66 @@ var Stores = map[string]*StoreKind{
 	"nslice": {Name: "nslice", Ordered: true, ListAs: "slice", Wrap: func(root any) node.Node { return &nodeutil.Node{Object: root} }},
 }
 
-var StoreNames = []string{"rmap", "rslice", "nmap", "nslice"}
+var StoreNames = []string{"rmap", "rslice", "nmap", "nslice", "rstruct", "nstruct"}
+
+func init() {
+	// legacy reflection node over Go structs (lists are slices of struct pointers)
+	Stores["rstruct"] = &StoreKind{Name: "rstruct", Ordered: true, ListAs: "struct", Wrap: func(root any) node.Node { return nodeutil.ReflectChild(root) }}
+	// nodeutil.Node over Go structs; zero values denote "unset" (IgnoreEmpty)
+	Stores["nstruct"] = &StoreKind{Name: "nstruct", Ordered: true, ListAs: "struct", Wrap: func(root any) node.Node {
+		return &nodeutil.Node{Object: root, Options: nodeutil.NodeOptions{IgnoreEmpty: true}}
+	}}
+}
 
 // Build constructs the Go object graph for a tree directly.
-func (k *StoreKind) Build(f *Fixture, t *abs.Tree) map[string]any {
+func (k *StoreKind) Build(f *Fixture, t *abs.Tree) any {
+	if k.ListAs == "struct" {
+		root := NewRoot[f.Name]()
+		buildStruct(f, t, abs.Path{}, reflect.ValueOf(root).Elem())
+		return root
+	}
 	root := map[string]any{}
 	k.buildInto(f, t, abs.Path{}, root)
 	return root
+}
+
+// buildStruct fills a struct value from the tree (struct-backed stores).
+func buildStruct(f *Fixture, t *abs.Tree, at abs.Path, sv reflect.Value) {
+	for _, n := range f.DS.Children(at.SPath()) {
+		name := n.SP[len(n.SP)-1]
+		p := at.Child(abs.S(name))
+		fv := sv.FieldByName(FieldName(name))
+		if !fv.IsValid() {
+			panic("fixture struct " + sv.Type().String() + " has no field for " + name)
+		}
+		switch n.Kind {
+		case "leaf":
+			if v, ok := t.LeafAt(p); ok && len(v) == 1 {
+				fv.Set(reflect.ValueOf(LexToGo(n.Type, v[0])).Convert(fv.Type()))
+			}
+		case "leaflist":
+			if v, ok := t.LeafAt(p); ok {
+				fv.Set(reflect.ValueOf(lexListToGo(n.Type, v)).Convert(fv.Type()))
+			}
+		case "container":
+			if t.HasCont(p) {
+				c := reflect.New(fv.Type().Elem())
+				buildStruct(f, t, p, c.Elem())
+				fv.Set(c)
+			}
+		case "list":
+			if !t.HasCont(p) {
+				continue
+			}
+			sl := reflect.MakeSlice(fv.Type(), 0, 0)
+			for _, key := range t.OrdAt(p) {
+				e := reflect.New(fv.Type().Elem().Elem())
+				buildStruct(f, t, p.Child(abs.E(name, key...)), e.Elem())
+				sl = reflect.Append(sl, e)
+			}
+			fv.Set(sl)
+		}
+	}
 }
 
 func (k *StoreKind) buildInto(f *Fixture, t *abs.Tree, at abs.Path, m map[string]any) {
@@ -65,7 +118,9 @@ func (k *StoreKind) buildInto(f *Fixture, t *abs.Tree, at abs.Path, m map[string
 				continue
 			}
 			keys := t.OrdAt(p)
-			if k.ListAs == "slice" {
+			// map-backed lists hold single-key lists only (documented limitation of the
+			// library's map handlers): compound-key lists are laid out as slices
+			if k.ListAs == "slice" || len(n.Keys) > 1 {
 				l := []map[string]any{}
 				for _, key := range keys {
 					e := map[string]any{}
@@ -169,11 +224,17 @@ func projectInto(f *Fixture, t *abs.Tree, at abs.Path, m reflect.Value) {
 		if !v.IsValid() {
 			continue
 		}
+		if m.Kind() == reflect.Struct && (n.Kind == "leaf" || n.Kind == "leaflist") && v.IsZero() {
+			continue // struct-backed stores: the zero value denotes an unset leaf
+		}
 		switch n.Kind {
 		case "leaf":
 			t.Leaf = append(t.Leaf, abs.LeafItem{P: p, V: []string{GoToLex(v.Interface())}})
 		case "leaflist":
-			t.Leaf = append(t.Leaf, abs.LeafItem{P: p, V: GoToLexList(v.Interface())})
+			// YANG has no empty leaf-list: zero elements = the leaf-list does not exist
+			if vs := GoToLexList(v.Interface()); len(vs) > 0 {
+				t.Leaf = append(t.Leaf, abs.LeafItem{P: p, V: vs})
+			}
 		case "container":
 			t.Cont = append(t.Cont, p)
 			projectInto(f, t, p, v)
